@@ -23,7 +23,9 @@ CAPS = ("and who already tests with unusual and algebraically structured inputs,
         "gigabytes of output from one instance, sources that deliver a short key followed by zeros, constructions that fail half way, "
         "runs on freshly spawned threads, other targets (big-endian s390x / mips and 32-bit i686, interpreted by Miri, which also "
         "reports undefined behaviour), an unwritable stderr, every cargo feature combination, values solved to satisfy relations "
-        "(equal halves, pool == 0 after test_timer), families of same-state siblings doing jump() / long_jump() ")
+        "(equal halves, pool == 0 after test_timer), families of same-state siblings doing jump() / long_jump(), fork() in the middle "
+        "of a history, sources whose error type is zero-sized, generators embedded with serde(flatten) / tagged / untagged enums, "
+        "twins at the same buffer index in different blocks, every probe of test_timer stuck or backward, newly added Default impls ")
 for f in sorted(glob.glob(f"/tmp/seed/C??-{prev}.full.txt")):
     pid = os.path.basename(f)[:3]
     s = open(f).read().replace(f"{pid}-{prev}", f"{pid}-{new}")
